@@ -129,6 +129,10 @@ class _EventQueue:
     def __len__(self):
         return len(self._queue) + len(self._priority_queue)
 
+    def pending(self):
+        """The events that are queued but not taken up by a flush yet"""
+        return [event for _priority, _count, (event, _channels) in self._queue]
+
     def drainFrom(self, other_queue):
         self._queue.extend(other_queue._queue)
         other_queue._queue.clear()
@@ -409,6 +413,24 @@ class Manager:
             self.root._executing_thread = component._executing_thread
             component._executing_thread = None
         self.components.add(component)
+        # What the component has fired before it became part of this tree
+        # sits in its own queue, untracked. If a tracked event is being
+        # handled right now (the component is created and registered by a
+        # handler), these events belong to its effects like the ones that
+        # _fire() links.
+        root = self.root
+        handling = root._currently_handling
+        th = root._executing_thread or root._flushing_thread
+        if (
+            handling is not None
+            and getattr(handling, 'cause', None)
+            and _thread.get_ident() == (th.ident if th else None)
+        ):
+            for event in component._queue.pending():
+                if not isinstance(event, signal) and not getattr(event, 'cause', None):
+                    event.cause = handling
+                    event.effects = 1
+                    handling.effects += 1
         self.root._queue.drainFrom(component._queue)
         self.root._cache_needs_refresh = True
 
